@@ -1070,6 +1070,11 @@ func ruleIOLayer(c *Ctx) {
 			}
 			c.site(1)
 			key := name + "|" + what
+			if u, ok := in.(*ssa.UnOp); ok && what == "os.Stderr" && onlyFeedsLoggerSetup(u) {
+				// wherever the logger is configured: stderr as the log destination is not a data path
+				c.ok(key, c.pos(in.Pos()), name, "allowed: destination of the logger (logx.Setup)")
+				return
+			}
 			if why, ok := isAllowed(what, name); ok {
 				c.ok(key, c.pos(in.Pos()), name, "allowed: "+why)
 			} else {
@@ -1181,7 +1186,8 @@ func ruleDebugOut(c *Ctx) {
 	for _, fn := range c.srcFuncs() {
 		for _, ci := range callsTo(fn, "input/ast.SetDebug") {
 			c.site(1)
-			key := fname(fn) + "|SetDebug"
+			// keyed by the command hook the call is reached from, so that moving the call into a helper keeps the key
+			key := c.entryAlias(fn) + "|SetDebug"
 			lvl, ok := constInt(ci.Common().Args[0])
 			switch {
 			case !ok:
@@ -1222,4 +1228,78 @@ func (c *Ctx) debugPrintLevels(f *ssa.Function, minLevel *int64, prints *int) {
 			}
 		}
 	}
+}
+
+
+// entryAlias: the name of fn, or of the (unique) cobra hook / handler it is statically reached from through repo functions.
+func (c *Ctx) entryAlias(fn *ssa.Function) string {
+	if _, ok := funcAlias[fn]; ok {
+		return fname(fn)
+	}
+	// static callers, breadth first, depth <= 4
+	seen := map[*ssa.Function]bool{fn: true}
+	level := []*ssa.Function{fn}
+	for depth := 0; depth < 4 && len(level) > 0; depth++ {
+		var next []*ssa.Function
+		var hits []string
+		for _, g := range c.srcFuncs() {
+			for _, ci := range callsIn(g) {
+				callee := staticCallee(ci.Common())
+				if callee == nil {
+					continue
+				}
+				for _, t := range level {
+					if unbound(callee) == t && !seen[g] {
+						seen[g] = true
+						root := g
+						for root.Parent() != nil {
+							if _, ok := funcAlias[root]; ok {
+								break
+							}
+							root = root.Parent()
+						}
+						if _, ok := funcAlias[root]; ok {
+							hits = append(hits, fname(root))
+						}
+						next = append(next, g)
+					}
+				}
+			}
+		}
+		if len(hits) > 0 {
+			sort.Strings(hits)
+			return hits[0]
+		}
+		level = next
+	}
+	return fname(fn)
+}
+
+
+// onlyFeedsLoggerSetup: the loaded stream is used only as an argument of logx.Setup.
+func onlyFeedsLoggerSetup(v ssa.Value) bool {
+	refs := v.Referrers()
+	if refs == nil || len(*refs) == 0 {
+		return false
+	}
+	for _, r := range *refs {
+		switch x := r.(type) {
+		case *ssa.MakeInterface:
+			if !onlyFeedsLoggerSetup(x) {
+				return false
+			}
+		case *ssa.ChangeInterface:
+			if !onlyFeedsLoggerSetup(x) {
+				return false
+			}
+		case ssa.CallInstruction:
+			if calleeName(x.Common()) != "logx.Setup" {
+				return false
+			}
+		case *ssa.DebugRef:
+		default:
+			return false
+		}
+	}
+	return true
 }
